@@ -216,7 +216,10 @@ def _nocore_batch(idx, batch, outdir, target):
                     for name, it in (files[mp]["proj"].get("items") or {}).items():
                         if it.get("count") == 1 and it.get("deftext"):
                             lines.append("#[rustc_dump_layout(debug)]")
-                            lines.append(_VOID_RE.sub("crate::__core::c_void", it["deftext"]))
+                            text = _VOID_RE.sub("crate::__core::c_void", it["deftext"])
+                            if not target.startswith("i686"):
+                                text = CC_RE.sub('extern "C"', text)   # thiscall etc. exist on 32-bit x86 only
+                            lines.append(text)
                             where[len(lines)] = (cid, mp + (name,), it["k"])
                 if mp in mods_by_path:
                     sup = _ext_supply(mods_by_path[mp])
